@@ -63,7 +63,7 @@ Proof. vm_compute. repeat split. Qed.
 Definition p6_state_after_f1 : lstate :=
   fst (run_t p6_answer p6_root_answer p6_kind true p6_coords no_faults (p6_partial proper_path) (FTSeq [FTSingle p6_f0; FTSingle p6_f1])).
 Definition p6_f2_from (T : list rpath) : lstate :=
-  fst (fst (run_fetch_t unit (partial_exchange p6_answer p6_root_answer p6_kind no_faults (p6_partial proper_path)) true p6_coords p6_f2
+  fst (fst (run_fetch_t unit (partial_exchange p6_answer p6_root_answer p6_kind no_faults (p6_partial proper_path)) (tainted_indices true) p6_coords p6_f2
                         ((p6_state_after_f1, T), tt))).
 Example p6_position_instead_of_bucket :
   requests_subset_b (ls_reqs (fst (p6_run true no_partials))) (ls_reqs (p6_f2_from [l_at 1])) = false /\
@@ -99,3 +99,36 @@ Example p6_spec_clause :
   (* ... and rejects the data the position-instead-of-bucket loader produces *)
   taint_isolated_b p6_root [l_at 3] (bs "zip") [2] [] p6_ptree ref0 (data_of (p6_f2_from [l_at 1])) = false.
 Proof. vm_compute. split; reflexivity. Qed.
+
+(* ---- plan 7: the same through a SINGLE entity fetch: { a { id cost } }, f1 (entity fetch) delivers zip, f2 requires it.
+   The fault answers zip:null with an error at ["_entities",0,"zip"].  The repaired loader (commit 00d2cc7) resolves the path
+   against data._entities and taints a; HISTORICAL: before, it resolved it against the entity itself (data._entities.0),
+   nothing was tainted and f2 was sent with zip null. ---- *)
+Definition p7_f0 := single_fetch 0 "s0" "{a{__typename id}}".
+Definition p7_f1 := entity_fetch 1 "s1" "{_entities(r:[" ["a"] [0] (rep_of []).
+Definition p7_f2 := entity_fetch 2 "s2" "{_entities(q:[" ["a"] [0; 1] (rep_of [zip_fld]).
+Definition p7_tree : ftree := FTSeq [FTSingle p7_f0; FTSingle p7_f1; FTSingle p7_f2].
+Definition p7_kind (id : N) : fkind := match id with 0 => FSingle | _ => FEntity end.
+Definition p7_root_answer (id : N) : json * list json := (JObj [(bs "a", ent "2")], []).
+Definition p7_partial (id : N) : option pfault :=
+  match id with
+  | 1 => Some {| pf_nulls := [(0, bs "zip")]; pf_errors := [err_at [JStr (bs "_entities"); JNum (bs "0"); JStr (bs "zip")]] |}
+  | _ => None
+  end.
+Definition p7_run (P : N -> option pfault) : tstate := run_t p6_answer p7_root_answer p7_kind true p6_coords no_faults P p7_tree.
+Definition p7_run_v0 (P : N -> option pfault) : tstate := run_t_v0 p6_answer p7_root_answer p7_kind true p6_coords no_faults P p7_tree.
+
+Example p7_entity_fetch_taints :
+  snd (p7_run p7_partial) = [[PName (bs "a")]] /\ List.map rq_fetch (ls_reqs (fst (p7_run p7_partial))) = [0; 1] /\
+  requests_subset_b (ls_reqs (fst (p7_run no_partials))) (ls_reqs (fst (p7_run p7_partial))) = true.
+Proof. vm_compute. repeat split. Qed.
+
+Lemma taint_single_entity_refuted_proof :
+  exists answer root_answer kind_of coords t P,
+    forallb (fetch_wf kind_of) (fetches_of t) = true /\
+    snd (run_t_v0 answer root_answer kind_of true coords no_faults P t) = [] /\
+    requests_subset_b (ls_reqs (fst (run_t_v0 answer root_answer kind_of true coords no_faults no_partials t)))
+                      (ls_reqs (fst (run_t_v0 answer root_answer kind_of true coords no_faults P t))) = false.
+Proof.
+  exists p6_answer, p7_root_answer, p7_kind, p6_coords, p7_tree, p7_partial. vm_compute. repeat split.
+Qed.
